@@ -19,7 +19,7 @@ from django_evolution.consts import UpgradeMethod
 from django_evolution.errors import EvolutionExecutionError
 from django_evolution.evolve.base import BaseEvolutionTask
 from django_evolution.models import Evolution
-from django_evolution.mutations import AddField
+from django_evolution.mutations import AddField, RenameModel
 from django_evolution.mutators import AppMutator
 from django_evolution.signals import (applied_evolution,
                                       applying_evolution,
@@ -1224,6 +1224,47 @@ class EvolveAppTask(BaseEvolutionTask):
         new_models = db_get_installable_models_for_app(
             app=app,
             db_state=evolver.database_state)
+
+        if new_models and not hinted:
+            # A model that a pending RenameModel is going to provide (under
+            # a new table name) is not a new model. Creating its table now
+            # would leave nothing for the rename to rename to.
+            app_sig = (project_sig.get_app_sig(app_label) or
+                       project_sig.get_app_sig(self.legacy_app_label))
+
+            if (app_sig is not None and
+                app_sig.upgrade_method != UpgradeMethod.MIGRATIONS):
+                if self._evolutions is not None:
+                    pending_mutations = list(itertools.chain.from_iterable(
+                        evolution['mutations']
+                        for evolution in self._evolutions
+                    ))
+                else:
+                    pending_mutations = get_app_pending_mutations(
+                        app=app,
+                        evolution_labels=get_unapplied_evolutions(
+                            app=app,
+                            database=database_name),
+                        database=database_name)
+
+                model_names = set(
+                    model_sig.model_name
+                    for model_sig in app_sig.model_sigs
+                )
+                renamed_model_names = set()
+
+                for mutation in pending_mutations:
+                    if (isinstance(mutation, RenameModel) and
+                        mutation.old_model_name in model_names):
+                        model_names.discard(mutation.old_model_name)
+                        model_names.add(mutation.new_model_name)
+                        renamed_model_names.add(mutation.new_model_name)
+
+                new_models = [
+                    model
+                    for model in new_models
+                    if model._meta.object_name not in renamed_model_names
+                ]
 
         logger.debug('New models for %s: %r', app_label, new_models)
 
